@@ -44,8 +44,8 @@ theorem InitOk.procInv {s : St PS} (h : InitOk s) : ProcInv s := by
 theorem initState_ok (p : Program) (gateCont : Bool) (hp : p.Plain) : InitOk (p.initState gateCont) := by
   refine ⟨?_, ?_, rfl, ?_⟩
   · intro e he
-    have he' : e ∈ mkEvents 0 0 (p.pre.map (·.1)) := he
-    obtain ⟨sp, hsp, hd⟩ := mkEvents_data 0 0 _ e he'
+    have he' : e ∈ mkEvents 0 p.start (p.pre.map (·.1)) := he
+    obtain ⟨sp, hsp, hd⟩ := mkEvents_data 0 p.start _ e he'
     rw [hd]
     obtain ⟨x, hx, rfl⟩ := List.mem_map.mp hsp
     exact hp.1 x hx
